@@ -8,7 +8,7 @@ from typing import Any, Dict, List, Optional, Set, Tuple
 from . import project as P
 from .config import Config, PathOracle, next_prefix
 from .interp_expr import ExprMixin, UNBOUND, Z3_OPS, Z3_VARIADIC, Z3_CONSTS, Z3_FRESH
-from .terms import K, TRUE, FALSE, NONE, app, is_app, is_const, show
+from .terms import K, TRUE, FALSE, NONE, app, is_app, is_const, show, mkphi
 from .values import (Item, PyList, PyDict, Closure, BoundMethod, ClassRef, ModuleRef, ExtRef, BuiltinMethod,
                      SuperRef, Site, Emission, Event, Run)
 
@@ -243,7 +243,7 @@ class Interp(ExprMixin):
             comps = list(vt[1])
         if comps is None:
             vt = self.to_term(vt)
-            comps = [("idx", vt, K(i)) for i in range(n)]
+            comps = [self.subscript(vt, K(i)) for i in range(n)]
         for e, c in zip(tg.elts, comps):
             self.assign(e, c, st)
 
@@ -341,7 +341,7 @@ class Interp(ExprMixin):
             if ta == tb and not isinstance(va, (PyList, PyDict)):
                 out[k] = va
             else:
-                out[k] = ("phi", g, ta, tb)
+                out[k] = mkphi(g, ta, tb)
         return out
 
     # -- loops -----------------------------------------------------------------
@@ -372,8 +372,18 @@ class Interp(ExprMixin):
             if st.orelse:
                 self.exec_block(st.orelse)
             return None
+        target = st.target
+        itt = it if isinstance(it, tuple) else None
+        if itt is not None and itt[0] == "mcall" and itt[2] == "items" and not itt[3] and isinstance(target, (ast.Tuple, ast.List)) \
+                and len(target.elts) == 2 and isinstance(target.elts[0], ast.Name):
+            # `for key, v in d.items()` whose key is never read is `for v in d.values()`: one spelling
+            key = target.elts[0].id
+            reads = [n for b in st.body + st.orelse for n in ast.walk(b) if isinstance(n, ast.Name) and n.id == key]
+            if not reads:
+                it = ("mcall", itt[1], "values", (), ())
+                target = target.elts[1]
         loop = self.new_loop("for", it, st)
-        self._run_loop(st, loop, it, st.target)
+        self._run_loop(st, loop, it, target)
         if st.orelse:
             self.exec_block(st.orelse)
         return None
